@@ -326,18 +326,10 @@ ProvidedWithinInterval ==
 NoLeak == \A c \in Classes : ProvidedClassObj(c) =
               IF cprov[c] = NotSet THEN {Root} ELSE Closure(SeqSet(cprov[c]))
 
-\* a declaration on x changes the interval only of x (and for classes of
-\* the subclasses and their instances)
+\* a declaration on x changes what is provided only for x (and, for a class,
+\* for its subclasses and their instances): stated as the action property
+\* Unrelated in MC_Declarations (it needs the action label).
 AffectedByClass(c) == SubclassesOf(c)
-UnrelatedUnchangedC(c) ==
-    /\ \A k \in Classes \ AffectedByClass(c) :
-          ImplementedC(CurSt, k)' = ImplementedC(CurSt, k)
-    /\ \A o \in Objs : ClassOf[o] \notin AffectedByClass(c) =>
-          ProvidedO(CurSt, prov, o)' = ProvidedO(CurSt, prov, o)
-UnrelatedUnchangedO(o) ==
-    /\ \A k \in Classes : ImplementedC(CurSt, k)' = ImplementedC(CurSt, k)
-    /\ \A p \in Objs \ {o} :
-          ProvidedO(CurSt, prov, p)' = ProvidedO(CurSt, prov, p)
 
 \* C19
 SuperIsRestOfMro ==
